@@ -85,7 +85,7 @@ def OEquiv : Option Arr → Option Arr → Prop
 inductive AxIx where
   | int (i : Nat)
   | sl (ps : PSlice)
-  deriving Repr, BEq, DecidableEq
+  deriving Repr, DecidableEq
 
 mutual
 inductive NE where
@@ -209,7 +209,7 @@ def Arr.bin (op : BinOp) (x y : Arr) : Option Arr :=
 inductive RIx where
   | int (i : Nat)
   | sel (l : List Nat)
-  deriving Repr, BEq, DecidableEq
+  deriving Repr, DecidableEq
 
 def resolve (dim : Nat) : AxIx → Option RIx
   | .int i => if i < dim then some (.int i) else none
